@@ -139,6 +139,13 @@ def build(ch, with_options=True):
     if depth >= 3:
         d.add_cell(HCell(51, -25, mat=2, rho='-1.0', u=3)); d.add_cell(HCell(52, 25, mat=1, rho='-2.7', u=3))
     d.mats = {1: '13027 1', 2: '26056 1', 3: '1001 2 8016 1'}
+    if ch.choose('numbering', ['plain', 'high']) == 'high':
+        # surface numbers that look like implicit surfaces 1000*cell+surf of the TRCL cell 11, a universe and a
+        # TR card numbered like cells, sparse cell numbers with the importance-0-capable cell far above the rest
+        d.smap = {n: 11000 + n for n in list(d.surfcards) if isinstance(n, int)}
+        d.cmap = {10: 10, 11: 11, 19: 99999, 31: 7, 32: 2001, 33: 33, 41: 1041, 42: 5, 51: 3, 52: 12}
+        d.umap = {1: 31, 2: 10, 3: 3}
+        d.tmap = {7: 31, 8: 11, 9: 10, 6: 999, 5: 5, 4: 4, 3: 1}
     kwo = ch.choose('keyword-order', [None, ['imp', 'trcl', 'fill', 'u'], ['fill', 'imp', 'u', 'trcl'],
                                       ['trcl', 'u', 'imp', 'fill']])
     for c in d.hcells:
@@ -178,7 +185,7 @@ def check_state(scn, st, corrupt=None, result=None):
         elif st.cell(ch[0]).imp == 0:
             expected[i] = None
         else:
-            expected[i] = hier.provenance_label(ch)
+            expected[i] = hier.provenance_label(ch, st.cmap)
     if corrupt == 'swap':
         expected = np.array([((e[0][::-1],) + e[1:]) if e and e[0] != 'cell' else e for e in expected],
                             object)
